@@ -2,10 +2,10 @@
    and the rational operations the (unverified) oracle helpers in the driver use. *)
 Require Extraction.
 Require Import ExtrOcamlBasic.
-From Adapt Require Import Num.Qaux Vpsc.VpscSpec Vpsc.KKT Vpsc.Feas Vpsc.VpscModel Vpsc.VpscInv Vpsc.VpscInvB Vpsc.VpscKktB Vpsc.VpscModelW Vpsc.StaticModel Vpsc.StaticInvB.
+From Adapt Require Import Num.Qaux Vpsc.VpscSpec Vpsc.KKT Vpsc.Feas Vpsc.VpscModel Vpsc.VpscInv Vpsc.VpscInvB Vpsc.VpscKktB Vpsc.VpscModelW Vpsc.StaticModel Vpsc.StaticInvB Vpsc.StaticRefB.
 Extraction "c01_model.ml"
   kkt_ok kkt_gap sat_or_flagged detect obj place_of
   init step step_chk step_w step_w_chk all_invb_w stats_posb all_invb inv_mask bookb actb forestb trichotomyb statsb stats_liveb stats_adb blistb final_positions blk_of act_of uns_of tie scons svars act_invb
   stationarityb kkt_stateb fresh_count exit_gap exit_min_lam
-  static_init static_satisfy_t static_solve_t base stie merge_pass merge_pass_chk is_dag
+  static_init static_satisfy_t static_solve_t base stie merge_pass merge_pass_chk is_dag refine_chk
   Qplus Qminus Qmult Qdiv Qopp Qred Qle_bool Qeq_bool Qcompare.
